@@ -15,6 +15,13 @@ package main
 //   * functions that build a Conn value (another constructor would need its own wiring);
 //   * net/client.Client: embeds *LimitParallelRequests and declares no Do / DoObserve of its own.
 //
+//   * the servers (dtls/server, tcp/server: createConn; udp/server: getOrCreateConn): the Config a connection ACCEPTED by
+//     a server is built from (`cfg := <pkg>.DefaultConfig`) and every assignment to one of its two limit fields — a server may
+//     leave the defaults or hand down its own setting OF THE SAME LIMIT, nothing else;
+//   * the defaults of the two limits in udp/client.DefaultConfig and tcp/client.DefaultConfig (by compiling against /repo);
+//   * options/commonOptions.go: every Apply method and the constructor of LimitClientParallelRequestOpt and
+//     LimitClientEndpointParallelRequestOpt: which Config field is set from which option field / parameter.
+//
 // Unknown shapes (no or several constructions, unexpected argument counts …) fail closed.
 
 import (
@@ -27,6 +34,9 @@ import (
 	"path/filepath"
 	"sort"
 	"strings"
+
+	tcpclient "github.com/plgd-dev/go-coap/v3/tcp/client"
+	udpclient "github.com/plgd-dev/go-coap/v3/udp/client"
 )
 
 func init() {
@@ -214,6 +224,95 @@ func lwClient(repo string) (embeds bool, own []string) {
 	return embeds, own
 }
 
+
+var lwLimitFields = map[string]bool{"LimitClientParallelRequests": true, "LimitClientEndpointParallelRequests": true}
+
+// lwServer: (server, function, base of cfg, [(limit field, source as written)]) for the function that builds accepted connections.
+type lwServerWiring struct {
+	pkg, fn, base string
+	sets        [][2]string
+}
+
+func lwServer(repo, rel, fn string) lwServerWiring {
+	fset, f := parseFile(repo, rel)
+	fd := funcDecl(f, "Server", fn)
+	w := lwServerWiring{pkg: filepath.Dir(rel), fn: fn}
+	bases := 0
+	ast.Inspect(fd.Body, func(nd ast.Node) bool {
+		as, ok := nd.(*ast.AssignStmt)
+		if !ok || len(as.Lhs) != 1 || len(as.Rhs) != 1 {
+			return true
+		}
+		if identName(as.Lhs[0]) == "cfg" {
+			if as.Tok != token.DEFINE {
+				fail("LimiterWiring %s.%s: cfg is reassigned", rel, fn)
+			}
+			bases++
+			w.base = lwSrc(fset, as.Rhs[0])
+			return true
+		}
+		if sel, ok := as.Lhs[0].(*ast.SelectorExpr); ok && identName(sel.X) == "cfg" && lwLimitFields[sel.Sel.Name] {
+			w.sets = append(w.sets, [2]string{sel.Sel.Name, lwSrc(fset, as.Rhs[0])})
+		}
+		return true
+	})
+	if bases != 1 {
+		fail("LimiterWiring %s.%s: expected exactly one `cfg := …`, found %d", rel, fn, bases)
+	}
+	return w
+}
+
+// lwOptions: options/commonOptions.go — Apply methods and constructors of the two limit options.
+func lwOptions(repo string) (applies [][4]string, ctors [][4]string) {
+	fset, f := parseFile(repo, "options/commonOptions.go")
+	types := map[string]bool{"LimitClientParallelRequestOpt": true, "LimitClientEndpointParallelRequestOpt": true}
+	for _, d := range f.Decls {
+		fd, ok := d.(*ast.FuncDecl)
+		if !ok || fd.Body == nil {
+			continue
+		}
+		if fd.Recv != nil && len(fd.Recv.List) == 1 && types[recvTypeName(fd.Recv.List[0].Type)] {
+			tn := recvTypeName(fd.Recv.List[0].Type)
+			if len(fd.Body.List) != 1 {
+				fail("LimiterWiring options: %s.%s is not a single assignment", tn, fd.Name.Name)
+			}
+			as, ok := fd.Body.List[0].(*ast.AssignStmt)
+			if !ok || len(as.Lhs) != 1 || len(as.Rhs) != 1 || as.Tok != token.ASSIGN {
+				fail("LimiterWiring options: %s.%s is not a single assignment", tn, fd.Name.Name)
+			}
+			applies = append(applies, [4]string{tn, fd.Name.Name, lwSrc(fset, as.Lhs[0]), lwSrc(fset, as.Rhs[0])})
+			continue
+		}
+		if fd.Recv == nil && (fd.Name.Name == "WithLimitClientParallelRequest" || fd.Name.Name == "WithLimitClientEndpointParallelRequest") {
+			if len(fd.Body.List) != 1 || len(fd.Type.Params.List) != 1 || len(fd.Type.Params.List[0].Names) != 1 {
+				fail("LimiterWiring options: unexpected shape of %s", fd.Name.Name)
+			}
+			ret, ok := fd.Body.List[0].(*ast.ReturnStmt)
+			if !ok || len(ret.Results) != 1 {
+				fail("LimiterWiring options: unexpected shape of %s", fd.Name.Name)
+			}
+			cl, ok := ret.Results[0].(*ast.CompositeLit)
+			if !ok || len(cl.Elts) != 1 {
+				fail("LimiterWiring options: unexpected shape of %s", fd.Name.Name)
+			}
+			kv, ok := cl.Elts[0].(*ast.KeyValueExpr)
+			if !ok {
+				fail("LimiterWiring options: unexpected shape of %s", fd.Name.Name)
+			}
+			param := fd.Type.Params.List[0].Names[0].Name
+			val := lwSrc(fset, kv.Value)
+			if val == param {
+				val = "param"
+			}
+			ctors = append(ctors, [4]string{fd.Name.Name, lwSrc(fset, cl.Type), lwSrc(fset, kv.Key), val})
+		}
+	}
+	if len(applies) == 0 || len(ctors) != 2 {
+		fail("LimiterWiring options: limit options not found (%d apply methods, %d constructors)", len(applies), len(ctors))
+	}
+	return applies, ctors
+}
+
 func genLimiterWiring(g *gen, repo string) {
 	ws := []lwWiring{lwPackage(repo, "udp/client"), lwPackage(repo, "tcp/client")}
 	embeds, own := lwClient(repo)
@@ -259,6 +358,39 @@ structure Wiring where
 	b.WriteString("]\n\n")
 	fmt.Fprintf(&b, "/-- net/client.Client embeds *limitparallelrequests.LimitParallelRequests -/\ndef clientEmbedsLimiter : Bool := %v\n", embeds)
 	fmt.Fprintf(&b, "/-- methods Do / DoObserve declared on net/client.Client itself (they would shadow the limiter's) -/\ndef clientOwnDo : List String := %s\n", natList(own, q))
+	// servers
+	srv := []lwServerWiring{lwServer(repo, "dtls/server/server.go", "createConn"), lwServer(repo, "tcp/server/server.go", "createConn"),
+		lwServer(repo, "udp/server/server.go", "getOrCreateConn")}
+	b.WriteString(`
+/-- how a server builds the Config of the connections it accepts: the base value of cfg and every assignment to one of the two
+    limit fields (field, source as written) -/
+structure ServerWiring where
+  pkg : String
+  fn : String
+  base : String
+  sets : List (String × String)
+  deriving DecidableEq, Repr
+
+`)
+	b.WriteString("def serverWirings : List ServerWiring := [\n")
+	for i, w := range srv {
+		fmt.Fprintf(&b, "  { pkg := %s, fn := %s, base := %s, sets := %s }", q(w.pkg), q(w.fn), q(w.base),
+			natList(w.sets, func(r [2]string) string { return fmt.Sprintf("(%q, %q)", r[0], r[1]) }))
+		if i+1 < len(srv) {
+			b.WriteString(",")
+		}
+		b.WriteString("\n")
+	}
+	b.WriteString("]\n\n")
+	fmt.Fprintf(&b, "/-- udp/client.DefaultConfig (also the base of dtls connections): LimitClientParallelRequests, LimitClientEndpointParallelRequests -/\ndef udpDefaultLimits : Int × Int := (%d, %d)\n",
+		udpclient.DefaultConfig.LimitClientParallelRequests, udpclient.DefaultConfig.LimitClientEndpointParallelRequests)
+	fmt.Fprintf(&b, "/-- tcp/client.DefaultConfig: LimitClientParallelRequests, LimitClientEndpointParallelRequests -/\ndef tcpDefaultLimits : Int × Int := (%d, %d)\n\n",
+		tcpclient.DefaultConfig.LimitClientParallelRequests, tcpclient.DefaultConfig.LimitClientEndpointParallelRequests)
+	applies, ctors := lwOptions(repo)
+	fmt.Fprintf(&b, "/-- options/commonOptions.go: (option type, Apply method, Config field assigned, source) -/\ndef optionApplies : List (String × String × String × String) := %s\n",
+		natList(applies, func(r [4]string) string { return fmt.Sprintf("(%q, %q, %q, %q)", r[0], r[1], r[2], r[3]) }))
+	fmt.Fprintf(&b, "/-- options/commonOptions.go: (constructor, option type built, field set, value: `param` = the constructor's parameter) -/\ndef optionCtors : List (String × String × String × String) := %s\n",
+		natList(ctors, func(r [4]string) string { return fmt.Sprintf("(%q, %q, %q, %q)", r[0], r[1], r[2], r[3]) }))
 	b.WriteString("\nend CoapVerif.Generated.LimiterWiring\n")
 	g.write("LimiterWiring.lean", b.String())
 }
